@@ -305,7 +305,7 @@ def ct_parse_strict(der):
         y, o = _strict_int(body, o)
         c3, o = _strict_tlv(body, o, 0x04)
         c2, o = _strict_tlv(body, o, 0x04)
-        if o != len(body) or len(c3) != 32:
+        if o != len(body) or len(c3) != 32 or x >> 256 or y >> 256:
             return None
         return (x, y, bytes(c3), bytes(c2))
     except ValueError:
